@@ -75,9 +75,17 @@ HealthConfigs ==
           {Edge("b", "a", "process_healthy")}, FALSE) :
       pol \in {"no", "always", "on_failure"}, th \in {1, 2} }
 
+\* ---- daemon: launcher + liveness probe, thresholds, policies, optional bystander
+DaemonConfigs ==
+  { MkCfg(<<[Proc("a") EXCEPT !.policy = pol, !.daemon = TRUE, !.hasLiveProbe = TRUE, !.threshold = th, !.maxRestarts = mx]>>, {}, FALSE) :
+      pol \in {"no", "always", "on_failure"}, th \in {1, 2}, mx \in {0, 1} }
+  \cup { MkCfg(<<[Proc("a") EXCEPT !.policy = "always", !.daemon = TRUE, !.hasLiveProbe = TRUE], Proc("b")>>,
+                {Edge("b", "a", "process_started")}, ord) : ord \in BOOLEAN }
+
 Codes01 == {0, 1}
 NoOps == {}
 ShutOnly == {"shutdown"}
 StopStartRestart == {"start", "stop", "restart"}
 AllOps == {"start", "stop", "restart", "shutdown"}
+StopRestartShut == {"stop", "restart", "shutdown"}
 =============================================================================
